@@ -442,6 +442,7 @@ func runC20(pl *plan.Plan, out *plan.Outcome) {
 	if n := cmdc.VerifLen(); n > cmdc.VerifCap {
 		env.Violate("cap", "", "%d entries stored, cap is %d", n, cmdc.VerifCap)
 	}
+	oraclePhase()
 	resLin := porcupine.CheckOperationsTimeout(c20Model(cmdc.VerifCap), history, 20*time.Second)
 	switch resLin {
 	case porcupine.Illegal:
